@@ -1,7 +1,7 @@
 /-! Model of the revent event system (C05): `pox/lib/revent/revent.py`, class `EventMixin`, with the repairs D01
 (`raiseEvent` iterates a copy of the handler list) and D28 (`removeListener(eid, eventType)` reads the list before using
-it) — and parameterised by `Variant` for D24, D60 (committed: `Variant.current`) and the two proposed repairs
-fixes/C05_once_fires_once and fixes/C05_nonevent_raise_rejected.
+it) — and parameterised by `Variant` for the four later repairs (D24, D60, one-shot fires once, non-event raise
+rejected; all committed: `Variant.current`), so that a tree that reverts one of them is modelled as such.
 
 Any number of event sources (`M.srcs`), sharing the global event-id counter; handlers subscribed on one source may
 subscribe, unsubscribe and raise on any other.  Event types, handler identities, subscription ids (eids) and owners of
@@ -282,9 +282,9 @@ def updSrc (srcs : Nat → Src) (i : Nat) (s : Src) : Nat → Src :=
     `noErrAll` — D24 (57f2d8f): `raiseEventNoErrors` treats a `ReventError` that came out of a handler like any other
     handler exception (it still re-raises its own complaint about an undeclared event, which happens before any frame);
     `onceFinally` — D60 (0e1d0cd): the one-shot removal sits in a `finally`, so it also happens when the handler raises;
-    `oncePre` — fixes/C05_once_fires_once: a one-shot entry is unsubscribed *before* it fires and skipped when it is not
+    `oncePre` — 195cf63 (fixes/C05_once_fires_once): a one-shot entry is unsubscribed *before* it fires and skipped when it is not
     subscribed any more, so it fires at most once ever, also under re-entrant raises;
-    `junkRejected` — fixes/C05_nonevent_raise_rejected: `raiseEvent` of something that is neither an `Event` nor an `Event`
+    `junkRejected` — 620cf65 (fixes/C05_nonevent_raise_rejected): `raiseEvent` of something that is neither an `Event` nor an `Event`
     subclass raises `ReventError` (before: `TypeError` for an object, `UnboundLocalError` for a class). -/
 structure Variant where
   noErrAll : Bool
@@ -293,8 +293,11 @@ structure Variant where
   junkRejected : Bool := false
   deriving DecidableEq, Repr
 
-/-- the tree as committed: D24 and D60 repaired -/
-def Variant.current : Variant := ⟨true, true, false, false⟩
+/-- the tree as committed: D24 (57f2d8f), D60 (0e1d0cd), one-shot fires once (195cf63), non-event raise rejected (620cf65) -/
+def Variant.current : Variant := ⟨true, true, true, true⟩
+
+/-- the tree before the last two repairs (phase 4): D24 and D60 only -/
+def Variant.phase3 : Variant := ⟨true, true, false, false⟩
 
 /-- the tree before any of these repairs (a tree that reverts them is modelled as such) -/
 def Variant.asIs : Variant := ⟨false, false, false, false⟩
